@@ -748,3 +748,6 @@ func tokRawOK(prevStart, prevEnd, n int, baseOffset int64, num uint64) bool {
 //@ func Uint
 //@ property C10 C20
 //@ ensures exact: n != 0 ==> result.raw == nil && len(result.str) == 1 && result.str[0] == 'u' && result.num == n
+
+//@ func (Value).Clone
+//@ inline
